@@ -81,7 +81,7 @@ def run_stage(job):
             n_valid=job.get('n_valid', 5))
     elif stage == 'validate':
         from cell_type_mapper.validation.validate_h5ad import validate_h5ad
-        validate_h5ad(
+        ret = validate_h5ad(
             h5ad_path=job['h5ad_path'],
             gene_id_mapper=None,
             log=None,
@@ -90,6 +90,8 @@ def run_stage(job):
             round_to_int=job.get('round_to_int', True),
             output_dir=job.get('output_dir'),
             valid_h5ad_path=job.get('valid_h5ad_path'))
+        # (path of the validated file or None, has_warnings)
+        return [None if ret[0] is None else str(ret[0]), bool(ret[1])]
     elif stage == 'election':
         # the election stage through its own entry point, with a results
         # directory handed in (per-chunk buffer files go there)
@@ -142,7 +144,7 @@ def main():
         warnings.simplefilter('ignore')
         with contextlib.redirect_stdout(buf):
             try:
-                run_stage(job)
+                status['returned'] = run_stage(job)
             except BaseException as e:   # noqa
                 status = {'ok': False,
                           'error': '%s: %s' % (type(e).__name__, e),
